@@ -158,7 +158,7 @@ pub fn merge_sweep(rep: &mut Report, thorough: bool) {
 
 /// ids (strings) of the elements of a flattened array in a read document
 fn ids_of(v: &Value) -> Vec<String> {
-    v.as_array().map(|a| a.iter().filter_map(|e| e.get("_id").and_then(|i| i.as_str()).map(|s| s.to_string())).collect()).unwrap_or_default()
+    v.as_array().map(|a| a.iter().filter_map(|e| e.get("_id").and_then(|i| i.as_str()).map(|s| s.to_string()).or_else(|| e.as_str().map(|s| format!("!{}", s)))).collect()).unwrap_or_default()
 }
 
 fn all_ids_of(v: &Value, out: &mut Vec<String>) {
@@ -173,7 +173,11 @@ fn all_ids_of(v: &Value, out: &mut Vec<String>) {
                 }
             }
         }
-        Value::Array(a) => a.iter().for_each(|e| all_ids_of(e, out)),
+        Value::Array(a) => a.iter().for_each(|e| match e {
+            // plain strings inside flattened arrays, written "!<string>" like in the recorded versions
+            Value::String(s) => out.push(format!("!{}", s)),
+            _ => all_ids_of(e, out),
+        }),
         _ => {}
     }
 }
@@ -192,7 +196,8 @@ impl Probe for MergeProbe {
             let rd = read_doc(m);
             let Some(doc) = rd.get("ok") else { continue };
             let Ok(rootv) = m.get_value("\u{221A}", None) else { continue };
-            let deleted = |id: &str| -> bool { m.get_winner(id).map(|w| w.contains("-d_")).unwrap_or(true) };
+            // (plain strings, written "!<string>", cannot be deleted)
+            let deleted = |id: &str| -> bool { !id.starts_with('!') && m.get_winner(id).map(|w| w.contains("-d_")).unwrap_or(true) };
             let mut all_ids: Vec<String> = vec![];
             let mut expected_all: BTreeSet<String> = BTreeSet::new();
             let mut multi = false;
@@ -207,7 +212,10 @@ impl Probe for MergeProbe {
                 for l in &leafs {
                     // ground truth (the array submitted when the revision was created) where the harness
                     // has it, else the replica's own reconstruction
-                    if let Some(t) = w.truth.get(&(duuid.to_string(), l.clone())) {
+                    if l.contains("-d_") {
+                        // a deletion of the array contributes no elements
+                        versions.insert(l.clone(), vec![]);
+                    } else if let Some(t) = w.truth.get(&(duuid.to_string(), l.clone())) {
                         versions.insert(l.clone(), t.clone());
                     } else if let Ok(o) = m.verif_array_order(duuid, l) {
                         versions.insert(l.clone(), o.iter().filter_map(|x| x.as_str().map(|s| s.to_string())).collect());
